@@ -135,6 +135,11 @@ func NewEngine(verifDir string, patterns []string) (*Engine, error) {
 			pk.Build()
 		}
 	}
+	for _, path := range interpretedPkgs {
+		if pk := prog.ImportedPackage(path); pk != nil {
+			pk.Build()
+		}
+	}
 	errorsPkg := prog.ImportedPackage("errors")
 	if errorsPkg == nil {
 		return nil, fmt.Errorf("package errors not loaded")
@@ -267,6 +272,28 @@ func (e *Engine) RunInstances(insts []*Instance) ([]*InstanceResult, RunStats) {
 	var stats RunStats
 	var wg sync.WaitGroup
 	start := time.Now()
+	stopProgress := make(chan struct{})
+	if e.verbose {
+		go func() {
+			t := time.NewTicker(10 * time.Second)
+			defer t.Stop()
+			for {
+				select {
+				case <-stopProgress:
+					return
+				case <-t.C:
+					mu.Lock()
+					done, viol := 0, 0
+					for _, r := range results {
+						done += r.Paths
+						viol += len(r.Violations)
+					}
+					fmt.Fprintf(os.Stderr, "  … %.0fs: %d paths done, %d queued, %d busy, %d violations so far\n", time.Since(start).Seconds(), done, len(stack), busy, viol)
+					mu.Unlock()
+				}
+			}
+		}()
+	}
 	for w := 0; w < e.workers; w++ {
 		wg.Add(1)
 		go func() {
@@ -326,6 +353,7 @@ func (e *Engine) RunInstances(insts []*Instance) ([]*InstanceResult, RunStats) {
 		}()
 	}
 	wg.Wait()
+	close(stopProgress)
 	return results, stats
 }
 
